@@ -157,6 +157,14 @@ def dump_quantity(quantity, version=LATEST_VER):
 
 
 def dump_decimal(decimal, version=LATEST_VER):
+    if isinstance(decimal, float):
+        # Non-finite values have their own spelling in Haystack JSON
+        if decimal != decimal:
+            return 'n:NaN'
+        elif decimal == float('inf'):
+            return 'n:INF'
+        elif decimal == -float('inf'):
+            return 'n:-INF'
     return 'n:%f' % decimal
 
 
